@@ -583,8 +583,13 @@ impl Client {
             },
             _ => Ev::Other,
         };
-        self.log.push(ev.clone());
-        Some(ev)
+        // (big message frames are not copied for the caller)
+        let ret = match &ev {
+            Ev::Msgs(..) => Ev::Other,
+            e => e.clone(),
+        };
+        self.log.push(ev);
+        Some(ret)
     }
     /// send a command and read until its text reply (a text starting with one of the prefixes) arrives
     pub fn cmd(&mut self, s: &str, prefixes: &[&str]) -> Option<String> {
@@ -602,6 +607,19 @@ impl Client {
         for _ in 0..n {
             if self.cmd("resume", &["ok: resume", "err: resume"]).is_none() {
                 return;
+            }
+        }
+    }
+    /// at least two complete ticks, then "eventually": keep ticking as long as ticks still bring stream
+    /// messages (whatever amount the server sends per tick)
+    pub fn quiesce(&mut self) {
+        self.sync(3);
+        let count = |log: &Vec<Ev>| log.iter().filter(|e| matches!(e, Ev::Msgs(_, ms) if !ms.is_empty()) || matches!(e, Ev::Text(t) if t.starts_with("stream:"))).count();
+        for _ in 0..10_000 {
+            let before = count(&self.log);
+            self.sync(2);
+            if count(&self.log) == before || self.dead.is_some() {
+                break;
             }
         }
     }
@@ -661,6 +679,36 @@ fn delivered(log: &[Ev], id: u32) -> (Vec<u32>, Vec<u64>, u64, Vec<RMsg>, Vec<St
     }
     (ix, ps, d, bin, hdrs)
 }
+/// long index lists are observed by (count, first, last, checksum)
+fn o_ix(l: &[u64]) -> O {
+    if l.len() <= 64 {
+        O::T(vec![O::L(0), O::T(l.iter().map(|x| O::n(*x)).collect())])
+    } else {
+        let mut acc: u64 = 0;
+        for (k, x) in l.iter().enumerate() {
+            acc = ((acc as u128 + (*x as u128 + 1) * (k as u128 + 1)) % 1_000_000_007u128) as u64;
+        }
+        O::T(vec![O::L(1), O::n(l.len() as u64), O::n(l[0]), O::n(*l.last().unwrap()), O::n(acc)])
+    }
+}
+/// number of messages delivered under the id before its first end marker (all of them if there is none)
+fn before_done(log: &[Ev], id: u32) -> u64 {
+    let pre = format!("stream:{} msg(", id);
+    let mut n = 0u64;
+    for e in log {
+        match e {
+            Ev::Msgs(i, ms) if *i == id => {
+                if ms.is_empty() {
+                    return n;
+                }
+                n += ms.len() as u64;
+            }
+            Ev::Text(t) if t.starts_with(&pre) => n += 1,
+            _ => {}
+        }
+    }
+    n
+}
 fn o_delivered(log: &[Ev], id: u32, with_info: bool, is_stream: bool) -> O {
     let (ix, ps, d, _, _) = delivered(log, id);
     // the last StreamInfo under the id (for a query the marker and the total depend on the batching)
@@ -670,7 +718,8 @@ fn o_delivered(log: &[Ev], id: u32, with_info: bool, is_stream: bool) -> O {
     });
     // only for the first id of a stream: whether a renewed id sees a StreamInfo depends on the batching
     let info = if with_info { info } else { None };
-    O::T(vec![O::T(ix.iter().map(|x| O::n(*x)).collect()), O::T(ps.iter().map(|x| O::n(*x)).collect()), O::n(d), O::T(info.unwrap_or_default())])
+    let ix64: Vec<u64> = ix.iter().map(|x| *x as u64).collect();
+    O::T(vec![o_ix(&ix64), o_ix(&ps), O::n(d), O::n(before_done(log, id)), O::T(info.unwrap_or_default())])
 }
 
 struct StreamRec {
@@ -726,6 +775,9 @@ fn run_session(srv_port: u16, c: &SessCase, dir: &std::path::Path, uniq: u64) ->
         adlt::utils::DltMessageIterator::new(0, rd).collect()
     };
     let mut tags: Vec<String> = vec![format!("sess_{}", if c.preload { "preloaded" } else { "racing" })];
+    if n >= 100_000 {
+        tags.push("sess_large".into());
+    }
     if c.sorted {
         tags.push("sess_sorted".into());
     }
@@ -750,7 +802,7 @@ fn run_session(srv_port: u16, c: &SessCase, dir: &std::path::Path, uniq: u64) ->
             if !finished {
                 finished = cl.wait_finished(n);
             }
-            cl.sync(3);
+            cl.quiesce();
             for r in ids.iter_mut() {
                 if r.superseded_at.is_none() {
                     r.must_be_complete = true;
@@ -922,7 +974,7 @@ fn run_session(srv_port: u16, c: &SessCase, dir: &std::path::Path, uniq: u64) ->
         .collect();
     let probe_reply = cl.cmd(&format!("stream {}", json!({"window": [0, n as u64 + 5], "binary": true})), &["ok: stream", "err: stream"]).unwrap_or_default();
     let probe_id = parse_id_after(&probe_reply, "{\"id\":").unwrap_or(0);
-    cl.sync(3);
+    cl.quiesce();
     let (_, _, _, probe, _) = delivered(&cl.log, probe_id);
     let _ = cl.cmd(&format!("stop {}", probe_id), &["ok: stop", "err: stop"]);
     let _ = cl.cmd("close", &["ok: 'close'", "err: close"]);
@@ -1017,11 +1069,11 @@ fn run_session(srv_port: u16, c: &SessCase, dir: &std::path::Path, uniq: u64) ->
             }
             let is_query_done = d > 0;
             if ix.len() > want.len() || ix[..] != want[..ix.len()] {
-                viol = Some(sess_fail("window_exact_once_in_order", format!("id {} window [{},{}) delivered {:?} want {:?}", r.id, r.start, r.end, ix, want)));
+                viol = Some(sess_fail("window_exact_once_in_order", format!("id {} window [{},{}) delivered {} want {}", r.id, r.start, r.end, summ(&ix, &want), summ(&want, &ix))));
                 break;
             }
             if (r.must_be_complete || is_query_done) && ix != want {
-                viol = Some(sess_fail("window_complete", format!("id {} window [{},{}) delivered {:?} want {:?}", r.id, r.start, r.end, ix, want)));
+                viol = Some(sess_fail("window_complete", format!("id {} window [{},{}) delivered {} want {}", r.id, r.start, r.end, summ(&ix, &want), summ(&want, &ix))));
                 break;
             }
             if !st.binary {
@@ -1151,6 +1203,15 @@ fn run_session(srv_port: u16, c: &SessCase, dir: &std::path::Path, uniq: u64) ->
     SessOut { obs: O::T(vec![O::T(op_obs), O::T(totals)]), verdict: viol.unwrap_or(Verdict::Ok), file_coq, tags }
 }
 
+/// short rendering of a possibly very long list of indices, with the first position where it differs from `other`
+fn summ(v: &[u32], other: &[u32]) -> String {
+    if v.len() <= 40 {
+        return format!("{:?}", v);
+    }
+    let d = v.iter().zip(other.iter()).position(|(a, b)| a != b).unwrap_or(std::cmp::min(v.len(), other.len()));
+    format!("[{} entries, first {}, last {}; first difference at position {}]", v.len(), v[0], v[v.len() - 1], d)
+}
+
 fn ev_has_id(e: &Ev, id: u32) -> bool {
     match e {
         Ev::Msgs(i, _) => *i == id,
@@ -1265,6 +1326,12 @@ fn sess_record(sink: &mut Sink, c: SessCase, out: SessOut) {
             .to_string(),
         );
     }
+    for o in &c.ops {
+        if let SOp::New { start, end, .. } | SOp::Window { start, end, .. } = o {
+            let w = end.saturating_sub(*start);
+            tags.push(if w == 0 { "win_empty".to_string() } else { format!("win_1e{}", w.to_string().len() - 1) });
+        }
+    }
     let nontrivial = c.ops.len() >= 3 && c.ops.iter().any(|o| matches!(o, SOp::New { fs, .. } if cf_active(fs)));
     let id = sink.next_id();
     let key = format!("{:?}", c);
@@ -1360,9 +1427,103 @@ fn gen_sess(rng: &mut Rng, racing: bool, sorted: bool) -> SessCase {
     SessCase { sorted, preload: !racing, file, ops }
 }
 
-fn run_sessions(sink: &mut Sink, cases: Vec<SessCase>) {
+/// window sizes over several orders of magnitude: log-uniform, neighbours of powers of ten and of two,
+/// a few fixed multiples, and "beyond the end"
+fn sweep_size(rng: &mut Rng, n: u64) -> u64 {
+    match rng.below(6) {
+        0 => {
+            // log-uniform in [1, 4n)
+            let bits = 1 + rng.below(64 - (4 * n).leading_zeros() as u64);
+            1 + rng.below(1u64 << bits.min(40)) % (4 * n)
+        }
+        1 => {
+            let p = 10u64.pow(2 + rng.below(4) as u32); // 10^2 .. 10^5
+            p + rng.below(3) - 1
+        }
+        2 => {
+            let p = 1u64 << (9 + rng.below(10)); // 2^9 .. 2^18
+            p + rng.below(3) - 1
+        }
+        3 => *rng.pick(&[1u64, 1000, 50_000, 99_999, 100_000, 100_001, 110_000, 250_000]),
+        4 => n + rng.below(1000),      // the whole file and beyond
+        _ => n / (1 + rng.below(4)) + rng.below(3), // fractions of the file
+    }
+}
+
+/// a session on a file of 120k..300k tiny messages: queries and streams with windows of all sizes, with and
+/// without filters, issued while the file is parsed and after the parser has finished; no searches (the
+/// model's search is quadratic on such a file)
+fn gen_large_sess(rng: &mut Rng, n_target: u64) -> SessCase {
+    let nruns = 3 + rng.below(4);
+    let mut file = vec![];
+    let mut ts = rng.below(50) as u32;
+    let mut left = n_target;
+    for j in 0..nruns {
+        let cnt = if j + 1 == nruns { left } else { (left / (nruns - j)) / 2 + rng.below(left / (nruns - j)) };
+        let cnt = cnt.max(1).min(left);
+        left -= cnt;
+        let dts = *rng.pick(&[0u32, 0, 1, 1, 2]);
+        file.push(FRun { cnt: cnt as u32, ecu: 1, apid: (j % 3) as u8, ctid: rng.below(2) as u8, ts0: ts, dts });
+        ts += cnt as u32 * dts + rng.below(3) as u32;
+        if left == 0 {
+            break;
+        }
+    }
+    let n: u64 = file.iter().map(|r| r.cnt as u64).sum();
+    let max_ts: u64 = file.iter().map(|r| (r.ts0 + r.cnt * r.dts) as u64).max().unwrap_or(0);
+    let filt = |rng: &mut Rng| -> Vec<CF> {
+        match rng.below(4) {
+            0 | 1 => vec![],
+            2 => vec![(1, 1, rng.below(3) as u8)],                   // everything but one apid
+            _ => vec![(0, 1, rng.below(3) as u8), (0, 2, rng.below(2) as u8)], // one apid or one ctid
+        }
+    };
+    let win = |rng: &mut Rng| -> (u64, u64) {
+        let w = sweep_size(rng, n);
+        let start = match rng.below(4) {
+            0 => 0,
+            1 => rng.below(2000),
+            2 => n.saturating_sub(w / 2 + rng.below(1000)), // crosses the end
+            _ => rng.below(n),
+        };
+        (start, start + w)
+    };
+    let mut ops = vec![];
+    // while the file is parsed
+    let nraced = 1 + rng.below(3);
+    for _ in 0..nraced {
+        let (start, end) = win(rng);
+        ops.push(SOp::New { settle: false, is_stream: rng.chance(1, 2), binary: true, fs: filt(rng), start, end });
+    }
+    // after the parser has finished (a settled command first: the settled command itself is still sent while the
+    // file is parsed): always a query over the whole file and beyond, and one over the whole filtered stream
+    ops.push(SOp::New { settle: true, is_stream: true, binary: true, fs: vec![], start: 0, end: 1 });
+    ops.push(SOp::New { settle: true, is_stream: false, binary: true, fs: vec![], start: rng.below(3), end: n + 1 + rng.below(1000) });
+    ops.push(SOp::New { settle: true, is_stream: false, binary: true, fs: vec![(1, 1, rng.below(3) as u8)], start: 0, end: 4 * n });
+    let mut kinds: Vec<bool> = ops.iter().map(|o| matches!(o, SOp::New { is_stream: true, .. })).collect();
+    for _ in 0..(3 + rng.below(4)) {
+        let streams_k: Vec<usize> = (0..kinds.len()).filter(|k| kinds[*k]).collect();
+        match rng.below(8) {
+            0..=3 => {
+                let (start, end) = win(rng);
+                let is_stream = rng.chance(1, 3);
+                kinds.push(is_stream);
+                ops.push(SOp::New { settle: true, is_stream, binary: true, fs: filt(rng), start, end });
+            }
+            4 | 5 if !streams_k.is_empty() => {
+                let (start, end) = win(rng);
+                ops.push(SOp::Window { settle: true, k: *rng.pick(&streams_k), start, end });
+            }
+            6 => ops.push(SOp::LookIdx { k: rng.below(kinds.len() as u64) as usize, idx: rng.below(n + 2) }),
+            _ => ops.push(SOp::LookTime { k: rng.below(kinds.len() as u64) as usize, t_ms: BASE_US / 1000 + rng.below(max_ts / 10 + 3) }),
+        }
+    }
+    SessCase { sorted: false, preload: false, file, ops }
+}
+
+fn run_sessions(cases: Vec<SessCase>) -> Vec<(SessCase, SessOut)> {
     if cases.is_empty() {
-        return;
+        return vec![];
     }
     let dir = tempfile::tempdir().unwrap();
     let srv = Server::start();
@@ -1386,9 +1547,7 @@ fn run_sessions(sink: &mut Sink, cases: Vec<SessCase>) {
         }
     }
     drop(srv);
-    for (c, o) in cases.into_iter().zip(outs.into_iter()) {
-        sess_record(sink, c, o.unwrap());
-    }
+    cases.into_iter().zip(outs.into_iter().map(|o| o.unwrap())).collect()
 }
 
 // ================================================================ corpus
@@ -1432,6 +1591,10 @@ fn corpus_sess() -> Vec<SessCase> {
                 SOp::Pages { k: 0, start: 0, maxr: 2, fs: vec![] },
                 SOp::Pages { k: 1, start: 0, maxr: 1, fs: vec![(0, 1, 1)] },
                 SOp::Pages { k: 1, start: 0, maxr: 2, fs: vec![] },
+                // pages that fill at the second-to-last / last position
+                SOp::Pages { k: 0, start: 1, maxr: 2, fs: vec![] },
+                SOp::Pages { k: 1, start: 0, maxr: 1, fs: vec![] },
+                SOp::Pages { k: 1, start: 0, maxr: 7, fs: vec![] },
                 SOp::LookIdx { k: 0, idx: 4 },
                 SOp::LookIdx { k: 1, idx: 3 },
                 SOp::LookIdx { k: 1, idx: 50 },
@@ -1497,19 +1660,50 @@ fn main() {
         match c["kind"].as_str().unwrap_or("") {
             "lib" => lib_record(&mut sink, serde_json::from_value(c["lib"].clone()).unwrap(), "replay"),
             "bs" => bs_record(&mut sink, serde_json::from_value(c["l"].clone()).unwrap(), c["key"].as_u64().unwrap()),
-            _ => run_sessions(&mut sink, vec![serde_json::from_value(c["sess"].clone()).unwrap()]),
+            _ => {
+                for (c, o) in run_sessions(vec![serde_json::from_value(c["sess"].clone()).unwrap()]) {
+                    sess_record(&mut sink, c, o);
+                }
+            }
         }
         sink.finish();
         return;
     }
     let quick = a.tier != "thorough";
     let mut rng = Rng::new(a.seed);
+    // sessions with the binary (run first; the large ones are spread over the shards so that coqc evaluates them in parallel)
+    let mut srng = rng.fork();
+    let mut sess = corpus_sess();
+    let nsess = if a.count.is_some() { 0 } else if quick { 18 } else { 300 };
+    for i in 0..nsess {
+        let racing = i % 6 == 5;
+        let sorted = i % 5 == 3;
+        sess.push(gen_sess(&mut srng, racing, sorted));
+    }
+    // large sessions: windows over several orders of magnitude
+    let nlarge = if a.count.is_some() { 0 } else if quick { 3 } else { 16 };
+    for i in 0..nlarge {
+        let n_target = match i % 3 {
+            0 => 120_000 + srng.below(20_000),
+            1 => 150_000 + srng.below(100_000),
+            _ => 260_000 + srng.below(40_000),
+        };
+        sess.push(gen_large_sess(&mut srng, n_target));
+    }
+    let done = run_sessions(sess);
+    let (mut large, normal): (Vec<_>, Vec<_>) = done.into_iter().partition(|(c, _)| c.file.iter().map(|r| r.cnt as u64).sum::<u64>() >= 100_000);
     // library level
     for c in corpus_lib() {
         lib_record(&mut sink, c, "corpus");
     }
     let nlib = a.count.unwrap_or(if quick { 700 } else { 12000 });
+    let every = std::cmp::max(1, nlib / (large.len() as u64 + 1));
     for i in 0..nlib {
+        if i % every == every / 2 {
+            if let Some((c, o)) = large.pop() {
+                sess_record(&mut sink, c, o);
+            }
+        }
         let big = i % (if quick { 120 } else { 300 }) == 7;
         let c = gen_lib(&mut rng, big);
         lib_record(&mut sink, c, "gen");
@@ -1521,14 +1715,8 @@ fn main() {
         let (l, k) = gen_bs(&mut rng);
         bs_record(&mut sink, l, k);
     }
-    // sessions with the binary
-    let mut sess = corpus_sess();
-    let nsess = if a.count.is_some() { 0 } else if quick { 18 } else { 300 };
-    for i in 0..nsess {
-        let racing = i % 6 == 5;
-        let sorted = i % 5 == 3;
-        sess.push(gen_sess(&mut rng, racing, sorted));
+    for (c, o) in large.into_iter().chain(normal.into_iter()) {
+        sess_record(&mut sink, c, o);
     }
-    run_sessions(&mut sink, sess);
     sink.finish();
 }
